@@ -335,6 +335,14 @@ def run_job(job):
                 for k in (0, n, n + 1, 2 ** 256 - 1, n - 1, 1):
                     extra.append((basep[:46] + k.to_bytes(32, "big"), "key", f"private key {k:#x}"))
                     acc.ob("mut_key_range")
+            # version fields that are a 4-byte window across two of the known version constants written one after the other
+            # (what a substring test against the joined constants accepts), and a known version shifted by one byte
+            from vf.classes import windows_across
+            known = sorted(set(R.VER.values()))
+            for w in windows_across(known, 4):
+                extra.append((w + basep[4:], "version", f"version {w.hex()} (window across two known versions)"))
+            for kv in known:
+                extra.append((kv[1:] + basep[4:5] + basep[4:], "version", "known version shifted left by one byte"))
             extra += [(basep[:-1], "length", "77 bytes"), (basep + b"\x00", "length", "79 bytes"), (b"", "length", "empty")]
             for p, f, what in extra:
                 acc.evaluations += 1
